@@ -437,6 +437,21 @@ def run(ctx):
                        "Result of %s in the folder is %s: a failing constant expression must fall back to run-time "
                        "evaluation" % (c.name, ds), f.where(c.bb))
     ctx.floor("C04.K3 operator calls in the folder", n3, 10)
+    # K3 over the rest of the front end (round 10, seed C04-10): wherever else code that runs while a template is LOADED
+    # (lexer, parser, code generator, tracker) evaluates one of the shared operator functions, a failure must not become
+    # a load-time error either - the same expression with a variable fails only if and when it is executed
+    done = {f.path for f in scope} | {COMPILE_EXPR}
+    for f in prog.fns.values():
+        if f.crate != "minijinja" or not f.path.startswith("minijinja::compiler::") or f.path in done or (f.root or "") in done:
+            continue
+        for c in f.calls():
+            if c.name.startswith("minijinja::value::ops::") and c.dest is not None and "p" not in c.dest \
+                    and f.locals[c.dest["l"]].get("adt") == "core::result::Result":
+                ds = errflow.disposition(f, c)
+                bad = [d for d in ds if d[0] in ("panics", "returned", "propagated", "dropped", "escapes")]
+                ctx.ob("C04.K3.fold-never-fails-eagerly", "%s|%s" % (f.path, c.name.split("::")[-1]), not bad and bool(ds),
+                       "Result of %s, evaluated while the template is loaded, is %s: a failing constant expression must fall "
+                       "back to run-time evaluation, not fail the load" % (c.name, ds), f.where(c.bb))
     # K3b: wherever else the AST module evaluates an operator at compile time (collection helpers, closures), a
     # failure must make the *whole fold* give up (None up to as_const), never drop or replace the element: the
     # closure holding the call may only be consumed by Option::and_then / Option::map, not by an iterator adaptor
